@@ -137,6 +137,7 @@ class ConfigSim:
         self.faults = {}
         self.ops_done = []
         self.failed_before = False
+        self.rel = None            # project directory the process sits in when AEIC_PATH is relative
         self.states = set()
         os.makedirs(os.path.join(sandbox, 'data', 'weather'), exist_ok=True)
         shutil.copy(os.path.join(_PKG_DATA, 'performance', 'sample_performance_model.toml'),
@@ -250,11 +251,19 @@ class ConfigSim:
         self.seam.begin(plan)
         exc = None
         cfg = None
+        import warnings
+
         try:
-            if file_arg is not None:
-                cfg = Config.load(file_arg, **kwargs)
-            else:
-                cfg = Config.load(**kwargs)
+            with warnings.catch_warnings():
+                if op.get('warnings') == 'error':
+                    # the process runs with warnings turned into errors (python -W error, pytest's
+                    # filterwarnings = error): the warnings filter is process state the simulator owns
+                    warnings.simplefilter('error')
+                    self.bump('load_with_warnings_as_errors')
+                if file_arg is not None:
+                    cfg = Config.load(file_arg, **kwargs)
+                else:
+                    cfg = Config.load(**kwargs)
         except SimCrash:
             raise
         except Exception as e:  # noqa: BLE001
@@ -313,7 +322,41 @@ class ConfigSim:
         if fired:
             self.bump('load_ok_despite_fault')
         self._check_values('after load', cfg)
+        if self.rel:
+            # AEIC_PATH is a relative path: it means the directory under the working directory the
+            # process has *now*
+            want = os.path.realpath(os.path.join(self.sandbox, self.rel, 'data'))
+            try:
+                got = [os.path.realpath(str(x)) for x in self.read_real(['path'])]
+            except Exception as e:  # noqa: BLE001
+                self.fail('read.value', f'reading path raised {type(e).__name__}: {e}', path='path')
+            if want not in got:
+                self.fail('read.value', f'search path {got} does not contain {want} (AEIC_PATH=data, cwd={os.getcwd()})',
+                          path='path')
+            self.bump('load_with_relative_search_path')
         return 'ok'
+
+    def op_relocate(self, op):
+        """The working directory and a relative AEIC_PATH are process state: between two loads the
+        process moves to another project directory (optionally the old one is removed)."""
+        if self.state is not None or self.real_is_set():
+            return None
+        to = op['to']
+        for proj in ('projA', 'projB'):
+            d = os.path.join(self.sandbox, proj, 'data')
+            if not os.path.isdir(d) and not (self.rel and op.get('drop_old')):
+                shutil.copytree(os.path.join(self.sandbox, 'data'), d)
+        if not os.path.isdir(os.path.join(self.sandbox, to, 'data')):
+            shutil.copytree(os.path.join(self.sandbox, 'data'), os.path.join(self.sandbox, to, 'data'))
+        old = self.rel
+        os.environ['AEIC_PATH'] = 'data'
+        os.chdir(os.path.join(self.sandbox, to))
+        self.rel = to
+        if op.get('drop_old') and old and old != to:
+            shutil.rmtree(os.path.join(self.sandbox, old), ignore_errors=True)
+            self.bump('relocate_old_project_removed')
+        self.bump('relocate')
+        return to
 
     def _check_values(self, when, cfg=None):
         for path in READ_PATHS:
@@ -446,8 +489,12 @@ def gen_op(rng: random.Random, sim: ConfigSim, cfg):
     if k == 'load':
         r = rng.random()
         op = {'op': 'load'}
+        if rng.random() < 0.3:
+            op['warnings'] = 'error'
         if r < cfg['p_valid']:
             op.update(expect='valid', kind='valid', kwargs=copy.deepcopy(rng.choice(VALID_KW)))
+            if rng.random() < 0.15:
+                op['kwargs']['engine_flie'] = 'typo.xlsx'     # a misspelt setting: not a setting at all
             if rng.random() < 0.4:
                 data = copy.deepcopy(rng.choice(VALID_KW))
                 data.pop('performance_model', None)
@@ -478,6 +525,8 @@ def gen_op(rng: random.Random, sim: ConfigSim, cfg):
         return {'op': 'construct', 'kwargs': copy.deepcopy(rng.choice(VALID_KW[:7])),
                 'how': rng.choice(['init', 'validate'])}
     if k == 'reset':
+        if cfg.get('relocate') and rng.random() < 0.5:
+            return {'op': 'relocate', 'to': rng.choice(['projA', 'projB']), 'drop_old': rng.random() < 0.4}
         return {'op': 'reset'}
     if k == 'get':
         return {'op': 'get'}
@@ -493,6 +542,7 @@ def draw_config(rng):
         'steps': rng.randint(4, 25),
         'p_valid': rng.choice([0.3, 0.5, 0.7]),
         'p_fault': rng.choice([0.0, 0.0, 0.3, 0.6]),
+        'relocate': rng.random() < 0.25,
         'weights': {'load': rng.choice([3, 5, 8]), 'reset': rng.choice([1, 2, 4]), 'get': 1,
                     'read': rng.choice([1, 3]), 'mutate': rng.choice([0.5, 2])},
     }
